@@ -872,7 +872,7 @@ func writeEvidence(prop, tier string, spec *checkSpec, jobs []*Job, results []*J
 		"solver_time_s":                 round2(tot.solverS),
 		"decided_by":                    tot.decided,
 		"unknown":                       tot.unknown,
-		"cross_check":                   map[string]any{"queries_put_to_a_second_solver": tot.cross, "disagreements": tot.disagree, "rule": "every 64th decided query (VERIF_CROSSCHECK=n: every n-th) is also decided by the next solver of the portfolio; a definite answer that differs fails the job"},
+		"cross_check":                   map[string]any{"queries_put_to_a_second_solver": tot.cross, "disagreements": tot.disagree, "rule": "every 128th decided query (VERIF_CROSSCHECK=n: every n-th) is also decided by a different solver build (z3 5.1.0 for answers of z3 4.8.12; z3 4.8.12 for answers of cvc5); a definite answer that differs fails the job"},
 		"inconclusive_paths":            tot.inconcl,
 		"cut_third_party":               tot.cut,
 		"path_endings":                  ended,
